@@ -227,3 +227,113 @@ theorem scatterWrite_refines (cfg : Cfg) {s : State α} (h : Coherent s) (iis : 
       exact ⟨h3, h4⟩
 
 end Ens.RaggedW
+
+namespace Ens.RaggedW
+variable {α β γ : Type}
+
+/-- variant of `scatterWrite_refines` when the flat indices are already known to be the cells `tg` -/
+theorem scatterWrite_of_flat (cfg : Cfg) {s : State α} (h : Coherent s) (iis : List (Int × Int))
+    (tg : List (Nat × Nat)) (hflat : convertFrom2d s.lengths iis = .ok (tg.map (flatOf s.lengths)))
+    (hv : ValidTargets s.array tg)
+    (v : Val α) (hval : cfg.rowViewsFix = true ∨ v.isEmptyContainer = false) :
+    arrR (scatterWrite cfg s iis v) = specScatter s.array tg v ∧
+    ∀ s', scatterWrite cfg s iis v = .ok s' → Coherent s' ∧ s'.lengths = s.lengths := by
+  unfold scatterWrite
+  rw [hflat]
+  simp only [List.length_map, specScatter]
+  rw [resolve_eq_specVals cfg v tg.length hval]
+  cases specVals v tg.length with
+  | error e => simp [arrR]
+  | ok vals =>
+    obtain ⟨s', h1, h2, h3, h4⟩ := rebuild_scatter h tg hv vals s.objDtype
+    simp only [h1, arrR, h2, true_and]
+    intro s'' hs
+    injection hs with hs
+    subst hs
+    exact ⟨h3, h4⟩
+
+/-- a cell of the rows read through the flat data -/
+theorem getElem?_flatten_flatOf (rows : List (List α)) (p : Nat × Nat) (row : List α)
+    (h1 : rows[p.1]? = some row) (h2 : p.2 < row.length) :
+    rows.flatten[flatOf (rows.map List.length) p]? = row[p.2]? := by
+  obtain ⟨r, c⟩ := p
+  simp only [flatOf] at *
+  induction rows generalizing r with
+  | nil => simp at h1
+  | cons x xs ih =>
+    cases r with
+    | zero =>
+      simp only [List.getElem?_cons_zero, Option.some.injEq] at h1
+      subst h1
+      simp only [List.map_cons, startOf_zero, Nat.zero_add, List.flatten_cons]
+      rw [List.getElem?_append_left h2]
+    | succ r =>
+      simp only [List.getElem?_cons_succ] at h1
+      simp only [List.map_cons, startOf_cons_succ, List.flatten_cons]
+      rw [List.getElem?_append_right (by omega)]
+      have := ih r h1
+      rw [← this]
+      congr 1
+      omega
+
+theorem allEq_eq_replicate : ∀ (ls : List Nat) (l0 : Nat), allEq (l0 :: ls) = true →
+    l0 :: ls = List.replicate (ls.length + 1) l0 := by
+  intro ls l0 h
+  simp only [allEq, List.all_eq_true, beq_iff_eq] at h
+  rw [List.replicate_succ]
+  congr 1
+  exact List.eq_replicate_iff.mpr ⟨rfl, h⟩
+
+theorem sum_replicate_nat (n l : Nat) : (List.replicate n l).sum = n * l := by
+  induction n with
+  | zero => simp
+  | succ n ih => simp [List.replicate_succ, ih, Nat.succ_mul, Nat.add_comm]
+
+/-- on consistent input every constructor path with `lengths` builds the partition -/
+theorem initFlat_eq (cfg : Cfg) (d : List α) (ls : List Nat) (np obj : Bool)
+    (hne : ls ≠ []) (hsum : ls.sum = d.length) (hd : d ≠ [] ∨ cfg.readsFix = true) :
+    initFlat cfg d ls np obj = .ok ⟨d, ls, partition ls d, np, obj⟩ := by
+  unfold initFlat
+  have h0 : (d.isEmpty && !cfg.readsFix) = false := by
+    rcases hd with hd | hd
+    · cases d with
+      | nil => exact absurd rfl hd
+      | cons x xs => simp
+    · simp [hd]
+  rw [h0]
+  cases ls with
+  | nil => exact absurd rfl hne
+  | cons l0 ls =>
+    simp only [Bool.false_eq_true, if_false]
+    by_cases hb : (np && allEq (l0 :: ls)) = true
+    · simp only [hb, if_true]
+      have hnp : np = true := by
+        cases np <;> simp_all
+      have hall : allEq (l0 :: ls) = true := by
+        cases np <;> simp_all
+      have hrep := allEq_eq_replicate ls l0 hall
+      have hs : (ls.length + 1) * l0 = d.length := by
+        rw [← hsum, hrep, sum_replicate_nat]
+      by_cases hr : cfg.readsFix = true
+      · simp only [hr, if_true, List.length_cons, hs, hnp]
+      · simp only [hr, Bool.false_eq_true, if_false]
+        have hdne : d ≠ [] := by
+          rcases hd with hd | hd
+          · exact hd
+          · exact absurd hd hr
+        have hl0 : l0 ≠ 0 := by
+          intro hz
+          subst hz
+          simp at hs
+          exact hdne (List.eq_nil_of_length_eq_zero hs.symm)
+        simp only [hl0, if_false]
+        have hmod : d.length % l0 = 0 := by
+          rw [← hs]; exact Nat.mul_mod_left _ _
+        simp only [hmod, if_true]
+        have hdiv : d.length / l0 = ls.length + 1 := by
+          rw [← hs]; exact Nat.mul_div_cancel _ (Nat.pos_of_ne_zero hl0)
+        rw [hdiv, ← hrep, hnp]
+    · simp only [hb, Bool.false_eq_true, if_false]
+      rw [partitionList_of_sum _ _ hsum]
+
+end Ens.RaggedW
